@@ -1,5 +1,6 @@
 import S2S.Model.Acl
 import Driver.Util
+import Driver.Translate
 /- Driver for engine "acl" (C15, C16). -/
 namespace Drv.Acl
 open S2S.Acl
@@ -22,15 +23,23 @@ def step (line : String) : String :=
   match Drv.words line with
   | ["unary", inb, pol, full, nss] =>
     match parsePolicy pol with
-    | some p => showDec (handleUnary (inb == "1") p full (if nss = "-" then [] else csv nss))
+    | some p => showDec (handleUnary (inb == "1") p full (if nss = "." then [] else (nss.splitOn ",").map fun n => if n = "-" then "" else n))
     | none => "bad-op"
   | ["stream", inb, pol, full, _] =>
     match parsePolicy pol with
     | some p => showDec (handleStream (inb == "1") p full)
     | none => "bad-op"
+  | "aclpath" :: pol :: full :: name :: path =>
+    -- the access matcher is applied to every namespace-name leaf the visitor reaches
+    match parsePolicy pol, Drv.Translate.parsePath path with
+    | some p, some (_, pth) =>
+      let n := if name = "-" then "" else name
+      let seen := if S2S.Translate.translates S2S.Gen.TG.graph S2S.Gen.TG.tables pth then [n] else []
+      showDec (handleUnary true p full seen)
+    | _, _ => "bad-op"
   | "listns" :: pol :: names =>
     match parsePolicy pol with
-    | some p => Drv.joinWith "," (filterNamespaces (p.map (·.namespaces)) names)
+    | some p => Drv.joinWith "," ((filterNamespaces (p.map (·.namespaces)) (names.map fun n => if n = "-" then "" else n)).map fun n => if n = "" then "-" else n)
     | none => "bad-op"
   | _ => "bad-op"
 
